@@ -18,7 +18,7 @@ Modelling decisions (each is checked by the correspondence run):
 * out-of-range read of `items[b+1]` is the explicit outcome `panic`.
 * follows the repaired code (4231007, 79d35ec, d8a082d, 3b432db): inactive list reset after a forced
   break, fallback breakpoints measured by `sumAfter`, deactivation without the penalty width,
-  non-positive stretch counts as unstretchable.
+  non-positive stretch counts as unstretchable; and bb6487a: exact-fit guard (`snapL`, `snapR`).
 * NaN is not modelled (inputs are finite; no operation of the algorithm produces NaN from finite
   inputs of moderate size).
 -/
@@ -43,6 +43,8 @@ structure Params (α : Type) where
   demFlagged : α
   demFitness : α
   infinity : α
+  /-- the relative guard `1e-10` of `computeAdjustmentRatio` -/
+  eps : α
 
 /-- the data of one `Breakpoint` -/
 structure ND (α : Type) where
@@ -145,22 +147,34 @@ def isForced (P : Params α) (it : Item α) : Bool :=
 
 def root : Node α := ⟨⟨0, 0, 1, k 0, k 0, k 0, k 0, k 0, k 0⟩, []⟩
 
+/-- `if math.Abs(L-lb.width) <= 1e-10*lb.width { L = lb.width }`: an exact fit is not lost to rounding -/
+def snapL (P : Params α) (lineW L : α) : α := if absS (L - lineW) ≤ P.eps * lineW then lineW else L
+
+/-- `if math.Abs(ratio+1.0) <= 1e-10 { ratio = -1.0 }` -/
+def snapR (P : Params α) (r : α) : α := if absS (r + k 1) ≤ P.eps then -(k 1 : α) else r
+
+/-- the case distinction of `computeAdjustmentRatio` for a line of natural width `L`, stretch `Yd`,
+shrink `Zd`; `snap` is applied to the shrink ratio. `none` = −Inf. -/
+def ratioCore (P : Params α) (lineW L Yd Zd : α) (snap : α → α) : Option α :=
+  if L < lineW then
+    if Yd ≤ k 0 then some (P.infinity * (k 1 + (lineW - L) / lineW))
+    else
+      let r := (lineW - L) / Yd
+      some (if r < P.infinity then r else P.infinity)
+  else if lineW < L then
+    if Zd == k 0 then none
+    else
+      let r := snap ((lineW - L) / Zd)
+      some (if r < P.infinity then r else P.infinity)
+  else some (if k 0 < P.infinity then k 0 else P.infinity)
+
+/-- natural width of the line: difference of the running sums plus the width of a penalty broken at -/
+def lineLen (it : Item α) (W aw : α) : α := if it.ty = Ty.penalty then W - aw + it.width else W - aw
+
 /-- `computeAdjustmentRatio`: line from the node with sums `(aw, ay, az)` to item `it` at which the
 running sums are `(W, Y, Z)`. `none` = −Inf. -/
 def adjRatio (P : Params α) (lineW : α) (it : Item α) (W Y Z aw ay az : α) : Option α :=
-  let L0 := W - aw
-  let L := if it.ty = Ty.penalty then L0 + it.width else L0
-  if L < lineW then
-    if Y - ay ≤ k 0 then some (P.infinity * (k 1 + (lineW - L) / lineW))
-    else
-      let r := (lineW - L) / (Y - ay)
-      some (if r < P.infinity then r else P.infinity)
-  else if lineW < L then
-    if (Z - az) == k 0 then none
-    else
-      let r := (lineW - L) / (Z - az)
-      some (if r < P.infinity then r else P.infinity)
-  else some (if k 0 < P.infinity then k 0 else P.infinity)
+  ratioCore P lineW (snapL P lineW (lineLen it W aw)) (Y - ay) (Z - az) (snapR P)
 
 /-- `computeSum`: running sums plus the glue swallowed by a break at the head of the list;
 `first` is `i == 0` -/
@@ -413,6 +427,6 @@ end
 
 instance : NatCast Float := ⟨Float.ofNat⟩
 
-def defaultParams : Params Float := ⟨2.0, 10.0, 100.0, 100.0, 1000.0⟩
+def defaultParams : Params Float := ⟨2.0, 10.0, 100.0, 100.0, 1000.0, 1e-10⟩
 
 end Canvas.C17
